@@ -90,6 +90,16 @@ Qed.
    writes, resolved by CPython's rule in the file's own package, is exactly the intended module.
    [root] is the (non-empty) dotted name of the output package, [removelast cur_file] the directory of the
    current file below it (both for plain modules and for __init__.py, whose __package__ is that directory). *)
+Lemma firstn_removelast : forall (l : modpath) n, n <= length (removelast l) -> firstn n (removelast l) = firstn n l.
+Proof.
+  induction l as [|x l IH]; intros n Hn; [reflexivity|].
+  destruct l as [|y l].
+  - simpl in Hn. assert (n = 0) by lia. subst. reflexivity.
+  - destruct n as [|n]; [reflexivity|].
+    change (removelast (x :: y :: l)) with (x :: removelast (y :: l)) in *.
+    simpl in Hn. simpl firstn at 1. simpl firstn at 2. f_equal. apply IH. simpl. lia.
+Qed.
+
 Theorem calc_relative_roundtrip : forall root cur_file tgt tdir i,
   root <> [] ->
   calc_relative cur_file tgt tdir = Some i ->
@@ -100,8 +110,12 @@ Proof.
   destruct (negb tdir && modpath_eqb cur_file tgt); [discriminate|].
   inversion H; subst i; clear H. simpl.
   set (d := removelast cur_file).
-  pose proof (cpl_le_l d tgt) as Hl.
-  set (L := common_prefix_len d tgt) in *.
+  set (t' := if tdir then tgt else removelast tgt).
+  pose proof (cpl_le_l d t') as Hl.
+  pose proof (cpl_le_r d t') as Hr.
+  assert (Hpre : firstn (common_prefix_len d t') d = firstn (common_prefix_len d t') tgt).
+  { rewrite firstn_cpl. unfold t' in *. destruct tdir; [reflexivity|]. apply firstn_removelast. exact Hr. }
+  set (L := common_prefix_len d t') in *.
   assert (Hlen : length root > 0) by (destruct root; [contradiction | simpl; lia]).
   rewrite app_length.
   destruct (length root + length d <? S (length d - L)) eqn:E.
@@ -112,7 +126,7 @@ Proof.
     replace (length root + L - length root) with L by lia.
     rewrite firstn_all2 by lia.
     rewrite <- app_assoc. f_equal.
-    unfold L. rewrite firstn_cpl. apply firstn_skipn.
+    rewrite Hpre. apply firstn_skipn.
 Qed.
 
 (* the computed import never climbs above the package root *)
